@@ -35,10 +35,14 @@ def lookback(cfg):
 PRE = ["UDJUDJDUJDUJ", "JUDDJUUDJJDU", "DJUJDUJUDUDJ"]
 
 
+# purely recursive indicators: once running, a new reading needs only the previous candle (its price and its readings)
+RECURSIVE = {"EMA", "RMA", "OBV", "VWAP", "ATR", "RSI", "TR", "Counter", "MACD", "KC", "TSI", "HLA", "Supertrend", "ADX"}
+
+
 def spaces(tier):
     if tier == "quick":
-        return dict(sigma="UDJ", n=3, lifes=(0, 2, 2.5, 3, 5, 8), tfs=(None, "T2", "T2+fill"), horizon=3.0)
-    return dict(sigma="UDJ", n=5, lifes=(0, 2, 2.5, 3, 4.75, 5, 8, 11), tfs=(None, "T2", "T2+fill"), horizon=6.0)
+        return dict(sigma="UDJ", n=3, lifes=(0, 1, 2, 2.5, 3, 5, 8), tfs=(None, "T2", "T2+fill"), horizon=3.0)
+    return dict(sigma="UDJ", n=5, lifes=(0, 1, 2, 2.5, 3, 4.75, 5, 8, 11), tfs=(None, "T2", "T2+fill"), horizon=6.0)
 
 
 def explore(item):
@@ -76,7 +80,7 @@ def explore(item):
                 case = {"cfg": label, "tf": tf, "fill": fill, "host": host, "raw": raw, "life": lifesec, "comp": comp}
                 try:
                     with deadline(sp["horizon"]):
-                        res = run(cfg, kw, host, raw, lifesec, comp, L, tf, fill)
+                        res = run(cfg, kw, host, raw, lifesec, comp, L, tf, fill, dict(twin) if kind in RECURSIVE else None)
                 except Horizon:
                     rep.violation(f"C15|horizon|{kind}", dict(case, oracle="horizon"))
                     continue
@@ -109,7 +113,9 @@ def explore(item):
     return rep
 
 
-def run(cfg, kw, host, raw, lifesec, comp, L, tf, fill=False):
+def run(cfg, kw, host, raw, lifesec, comp, L, tf, fill=False, running=None):
+    """running: for purely recursive indicators, {timestamp: untrimmed reading}: a step is eligible as soon as the
+    predecessor of the first recomputed candle is retained and the indicator is already running there."""
     from hexital import Hexital
     life = timedelta(seconds=lifesec)
     if host == "ind":
@@ -152,7 +158,12 @@ def run(cfg, kw, host, raw, lifesec, comp, L, tf, fill=False):
             b = min(b, prev_last if tf else prev_last + 1)
         j0 = next((j for j, t in enumerate(got) if R._secs(t) >= b), len(got))
         if dropped and j0 < L:
-            eligible = False
+            ok = False
+            if running is not None and j0 >= 1:
+                pv = running.get(got[j0 - 1])
+                ok = pv is not None and not (isinstance(pv, tuple) and any(v is None for k, v in pv if k not in ("long", "short")))
+            if not ok:
+                eligible = False
         if raised is not None:
             return window_bad, ("raised-while-eligible" if eligible else False), [repr(raised)]
     final = [(c.timestamp.isoformat(), cnum(r)) for c, r in zip(ind.candles, ind.as_list())]
@@ -169,7 +180,10 @@ def replay(case):
         return True
     L = lookback(cfg)
     try:
-        window_bad, eligible, final = run(cfg, kw, case["host"], raw, case["life"], tuple(case["comp"]), L, tf, case.get("fill", False))
+        tw0 = make(cfg, candles=fresh(raw), **kw)
+        tw0.calculate()
+        running = {c.timestamp.isoformat(): cnum(r) for c, r in zip(tw0.candles, tw0.as_list())} if cfg.get("cls") in RECURSIVE else None
+        window_bad, eligible, final = run(cfg, kw, case["host"], raw, case["life"], tuple(case["comp"]), L, tf, case.get("fill", False), running)
     except Exception:
         return True
     if case["oracle"] == "window":
